@@ -80,4 +80,22 @@ def run (tombstones : Bool) : State → List (Msg × Node) → State × List (Li
 def maxTime (k : Node × Svc) (h : List (Msg × Node)) : Nat :=
   h.foldl (fun a e => if (e.1.node, e.1.svc) == k then max a e.1.time else a) 0
 
+/-! ## the owner's side: a periodic advertisement round that overlaps the closing of the listener -/
+
+/-- `sendServiceAds` collects the advertised listeners (at `collectAt`, under the listener lock) and sends one
+advertisement each afterwards (at `sendAt`); in between (`closeAt`) the listener is closed, which sends the
+withdrawal at once.  `stampAtCollection` (regenerated fact): the advertisement carries the time of the collection,
+when the listener was seen to exist, not the time of sending. -/
+structure OwnerRace where
+  collectAt : Nat
+  closeAt : Nat
+  sendAt : Nat
+  deriving DecidableEq, Repr
+
+def ownerAd (stampAtCollection : Bool) (node : Node) (svc : Svc) (info : Info) (r : OwnerRace) : Msg :=
+  { node := node, svc := svc, time := if stampAtCollection then r.collectAt else r.sendAt, info := info, cancel := false }
+
+def ownerWithdrawal (node : Node) (svc : Svc) (r : OwnerRace) : Msg :=
+  { node := node, svc := svc, time := r.closeAt, info := ⟨0, []⟩, cancel := true }
+
 end Receptor.Ads
